@@ -130,3 +130,10 @@ Fixpoint conforms (db : dbfun) (t : track) (s : vstate) (ops : list op) : Prop :
   end.
 
 Definition db_wf (db : dbfun) : Prop := forall n p, sorted (db n p).
+
+(* states reachable by admissible, non-panicking operations, paired with the abstract state *)
+Inductive reach (db : dbfun) : track -> vstate -> Prop :=
+| reach_init : reach db track_new (vinit db)
+| reach_step : forall t s o t' r evs,
+    reach db t s -> adm db t s o -> step db t o = (t', r, evs) -> r <> RPanic ->
+    reach db t' (spec_next db s o r).
